@@ -149,11 +149,13 @@ func (t *System) openNetconf(a *Args) error {
 		t.buildOpenArgs(a)
 	}
 
-	t.OpenArgs = append(t.OpenArgs, "-s", "netconf")
+	// the subsystem request is added to a copy: OpenArgs is kept for the next open of this transport,
+	// which must not ask for "netconf -s netconf"
+	openArgs := append(append([]string{}, t.OpenArgs...), "-s", "netconf")
 
-	a.l.Debugf("opening system transport with bin '%s' and args '%s'", t.OpenBin, t.OpenArgs)
+	a.l.Debugf("opening system transport with bin '%s' and args '%s'", t.OpenBin, openArgs)
 
-	t.c = exec.Command(t.OpenBin, t.OpenArgs...) //nolint:gosec
+	t.c = exec.Command(t.OpenBin, openArgs...) //nolint:gosec
 
 	var err error
 
